@@ -335,7 +335,9 @@ type hRun struct {
 	tail   []harness.Event // events after the last command (Logout at EOF)
 	rig    *harness.Rig
 	incon  string
-	out    []byte // complete server output (plaintext)
+	// deadlock: state-based (all server goroutines parked, none waiting for input)
+	deadlock string
+	out      []byte // complete server output (plaintext)
 }
 
 func runLockstep(c hCase) hRun {
@@ -368,6 +370,9 @@ func runLockstep(c hCase) hRun {
 		case harness.QIdle:
 		default:
 			run.incon = fmt.Sprintf("step %s: server state %s", sr.Cmd, st)
+			if st == harness.QDeadlock {
+				run.deadlock = fmt.Sprintf("after %s the server is deadlocked (no reply will ever come):\n%s", sr.Cmd, w.Deadlock)
+			}
 			return false
 		}
 		return true
@@ -429,6 +434,9 @@ func runLockstep(c hCase) hRun {
 	rest, fin := w.Finish()
 	if !fin {
 		run.incon = "watchdog while finishing"
+		if w.Deadlock != "" {
+			run.deadlock = "the server is deadlocked at the end of the history:\n" + w.Deadlock
+		}
 		return run
 	}
 	if len(rest) > 0 && len(run.steps) > 0 {
